@@ -789,6 +789,8 @@ pub fn mig_grid() -> Vec<History> {
     msgs.push(MigrateMsg { ask_fee_rate: Some(s("0.03")), ask_fee_account: Some(s("askfee2")), bid_fee_rate: Some(s("")), bid_fee_account: Some(s("")), ..none.clone() });
     msgs.push(MigrateMsg { bid_fee_rate: Some(s("0.002500000000000000000000000000")), bid_fee_account: Some(s("bidfee2")), ..none.clone() });
     msgs.push(MigrateMsg { ask_fee_rate: Some(s("0.0500000000000000000000000000000")), ask_fee_account: Some(s("askfee2")), bid_fee_rate: Some(s("0.2")), bid_fee_account: Some(s("bidfee2")), ..none.clone() });
+    // blank (whitespace-only) strings are not the clearing pair
+    msgs.push(MigrateMsg { bid_fee_rate: Some(s(" ")), bid_fee_account: Some(s(" ")), ..none.clone() });
     let mut out = vec![];
     for (vi, ver) in versions.iter().enumerate() {
         for (si, sh) in shapes.iter().enumerate() {
